@@ -100,6 +100,8 @@ def driver_source(calls, bufs):
         out.append('  for (long i = 0; i < cap_%s; i++) %s[i] = %s;' % (name, name, _lit(ct, fill)))
         for i, v in enumerate(vals):
             out.append('  if (%d < cap_%s) %s[%d] = %s;' % (i, name, name, i, _lit(ct, v)))
+        for i, v in sorted((b.get('sparse') or {}).items()):
+            out.append('  if (%d < cap_%s) %s[%d] = %s;' % (int(i), name, name, int(i), _lit(ct, v)))
         declared.append(name)
 
     for ci, c in enumerate(calls):
@@ -178,7 +180,7 @@ def run_driver(calls, timeout=20):
             elif a.depth == 1:
                 bn = 'c%d_%s' % (ci, a.name)
                 info = c['arrays'][a.name]
-                bufs[bn] = dict(ctype=a.ctype, cap=int(info['cap']), values=info.get('values', []))
+                bufs[bn] = dict(ctype=a.ctype, cap=int(info['cap']), values=info.get('values', []), sparse=info.get('sparse'), fill=info.get('fill', 0))
                 args.append(('buf', bn))
             else:
                 raise ValueError('nested list argument')
